@@ -106,6 +106,9 @@ where
                 true => (v_node_index, u_node_index),
             };
 
+        // the cached adjacency weight follows the same policy as the stored edges
+        let keep_last = self.specs.edge_dedupe_strategy == EdgeDedupeStrategy::KeepLast;
+
         // add to the successors HashMap
         self.successors
             .entry(edge.u.clone())
@@ -125,6 +128,8 @@ where
             ordered_edge_v,
             edge.weight,
             edge_already_exists,
+            self.specs.multi_edges,
+            keep_last,
         );
 
         // add to predecessors
@@ -144,6 +149,8 @@ where
                     ordered_edge_u,
                     edge.weight,
                     edge_already_exists,
+                    self.specs.multi_edges,
+                    keep_last,
                 );
             }
             false => {
@@ -161,6 +168,8 @@ where
                     ordered_edge_u,
                     edge.weight,
                     edge_already_exists,
+                    self.specs.multi_edges,
+                    keep_last,
                 );
             }
         }
@@ -459,6 +468,9 @@ where
 
 /**
 Adds a node to an adjacency (successor or predecessor) vector.
+When the pair is already present the cached weight stays the minimum over the stored
+parallel edges (`multi_edges`), or follows the replacement of the single stored edge
+(`keep_last`).
  */
 fn add_to_adjacency_vec(
     adjacency_vec: &mut Vec<Vec<AdjacentNode>>,
@@ -466,6 +478,8 @@ fn add_to_adjacency_vec(
     v_node_index: usize,
     weight: f64,
     edge_already_exists: bool,
+    multi_edges: bool,
+    keep_last: bool,
 ) {
     match edge_already_exists {
         true => {
@@ -473,7 +487,11 @@ fn add_to_adjacency_vec(
                 .iter()
                 .position(|succ| succ.node_index == v_node_index)
                 .unwrap();
-            if weight < adjacency_vec[u_node_index][index].weight {
+            let replace = match multi_edges {
+                true => weight < adjacency_vec[u_node_index][index].weight,
+                false => keep_last,
+            };
+            if replace {
                 adjacency_vec[u_node_index][index] = AdjacentNode::new(v_node_index, weight);
             }
         }
